@@ -312,6 +312,14 @@ def _selection_table(p, ini):
     for n in ast.walk(ini.node):
         if not (isinstance(n, ast.Assign) and any(self_attr(t) == "_bin_evaluation_method" for t in n.targets)):
             continue
+        # a dispatch table: `methods = {'name': self._method, ...}` ... `self._bin_evaluation_method = methods[self._bin_evaluation]`
+        if isinstance(n.value, ast.Subscript) and self_attr(n.value.slice) == "_bin_evaluation":
+            table = common.resolve_local(ini.node, n.value.value)
+            if isinstance(table, ast.Dict):
+                for k, v in zip(table.keys, table.values):
+                    if common.const_str(k) and self_attr(v):
+                        sel[common.const_str(k)] = self_attr(v)
+            continue
         if self_attr(n.value):
             from ..canon import negate
             for cnd, pol in common.guard_conditions(ini.node, n):
